@@ -118,6 +118,11 @@ def run_case(case):
                 wsj, cj, _o = snap()
                 events.append({"act": {"op": "Evict", "c": op["c"]}, "ws": wsj, "cache": cj, "flags": {}})
                 continue
+            if op.get("op") == "Arrive":
+                w.put_object(OID[op["c"]], CONTENTS[op["c"]])      # the object was fetched into the cache
+                wsj, cj, _o = snap()
+                events.append({"act": {"op": "Arrive", "c": op["c"]}, "ws": wsj, "cache": cj, "flags": {}})
+                continue
             if op.get("op") == "Corrupt":
                 # the object is replaced by a file of other bytes, left writable (an interrupted write, an edit through a link)
                 p = w.cache_path(OID[op["c"]])
@@ -272,6 +277,22 @@ def evict_cases():
     return cases
 
 
+def arrive_cases():
+    """A checkout that fails because an object is missing, the object arrives, the checkout is run again (and repeated)."""
+    cases, n = [], 990000
+    for c, other in (("c1", "c2"), ("c2", "c1")):
+        for t in ({"kind": "tree", "listing": {"a": c, "s/b": other}}, {"kind": "tree", "listing": {"a": c, "s/b": c}}, {"kind": "file", "c": c}):
+            for link in ("copy", "hard"):
+                for cls in ("local", "generic"):
+                    for state in (False, True):
+                        op = {"t": t, "force": True, "relink": False, "prompt": "absent"}
+                        cases.append({"id": n, "link": link, "cls": cls, "state": state,
+                                      "init": {"ws": {"kind": "absent"}, "cache": {"c0": "ok", other: "ok"}, "dirobjs": []},
+                                      "ops": [op, {"op": "Arrive", "c": c}, op, dict(op, relink=True)]})
+                        n += 1
+    return cases
+
+
 def corrupt_between_cases():
     """A cache object is damaged between two checkouts of one process; the second one needs it for a new path."""
     cases, n = [], 980000
@@ -403,7 +424,7 @@ def _check(run: core.Run, focus, replay=None):
         cases = [replay["witness"]["case"]]
     else:
         gen = generate()
-        cases = directed_cases() + evict_cases() + corrupt_between_cases() + dangling_cases() + mixed_link_cases() + make_cases(gen, rng, 2400 if quick else 24000, focus)
+        cases = directed_cases() + evict_cases() + arrive_cases() + corrupt_between_cases() + dangling_cases() + mixed_link_cases() + make_cases(gen, rng, 2400 if quick else 24000, focus)
     traces = execute_and_validate(run, cases)
     run.extra["rule"] = ("TLC-generated prior workspaces (absent / file / directory, files as copies, hard links or symbolic links), "
                          "cache contents (present, absent, corrupt per object; directory object cached or not), targets (none / file / "
